@@ -8,6 +8,9 @@
  *   eintr  <fd> off:count ...    `count` EINTR results before the byte at `off` moves
  *   fail   <fd> <off> <errno-name> <sticky|recovers>
  *   log    <path>                append one line per intercepted call
+ *   file   <slot> <path>         slot in 3..10: reads on the descriptor that open()/openat()
+ *                                returns for exactly this path follow the plan of <slot>
+ *                                (limits/eintr/fail lines may name a slot instead of an fd)
  * Offsets are byte offsets on that fd. A transfer never straddles a planned offset.
  * After a sticky failure every call on that fd fails; more than 64 such calls end the
  * process with status 97 (liveness bound, reported by the harness).
@@ -42,7 +45,11 @@ struct plan {
     size_t pos;
 };
 
-static struct plan P[3];
+#define NSLOT 11
+#define MAXFD 1024
+static struct plan P[NSLOT];
+static char *slot_path[NSLOT];
+static unsigned char fd_slot[MAXFD]; /* fd -> slot for file arguments (0 = none) */
 static int logfd = -1;
 static unsigned long seq;
 static int initialised;
@@ -89,8 +96,13 @@ static void init(void) {
             continue;
         }
         int u2 = 0;
-        if (sscanf(rest, "%d %n", &fd, &u2) < 1 || fd < 0 || fd > 2) continue;
+        if (sscanf(rest, "%d %n", &fd, &u2) < 1 || fd < 0 || fd >= NSLOT) continue;
         rest += u2;
+        if (!strcmp(kw, "file")) {
+            char p[900];
+            if (fd >= 3 && sscanf(rest, "%899s", p) == 1) slot_path[fd] = strdup(p);
+            continue;
+        }
         struct plan *p = &P[fd];
         p->active = 1;
         if (!strcmp(kw, "limits")) {
@@ -167,15 +179,71 @@ static int decide(int fd, char op, size_t asked, size_t *n) {
     return 0;
 }
 
+static int slot_of(int fd) {
+    if (fd == 0) return 0;
+    if (fd > 2 && fd < MAXFD && fd_slot[fd]) return fd_slot[fd];
+    return -1;
+}
+
 ssize_t read(int fd, void *buf, size_t count) {
     init();
-    if (fd != 0 || !P[0].active || count == 0) return raw_read(fd, buf, count);
+    int slot = slot_of(fd);
+    if (slot < 0 || !P[slot].active || count == 0) return raw_read(fd, buf, count);
     size_t n;
-    if (decide(fd, 'r', count, &n)) return -1;
+    if (decide(slot, 'r', count, &n)) return -1;
     ssize_t r = raw_read(fd, buf, n);
-    logline(fd, 'r', count, P[fd].pos, (long)r, r < 0 ? errno : 0);
-    if (r > 0) P[fd].pos += (size_t)r;
+    logline(slot, 'r', count, P[slot].pos, (long)r, r < 0 ? errno : 0);
+    if (r > 0) P[slot].pos += (size_t)r;
     return r;
+}
+
+static void note_open(const char *path, int fd) {
+    if (fd < 3 || fd >= MAXFD || !path) return;
+    fd_slot[fd] = 0;
+    for (int s = 3; s < NSLOT; s++)
+        if (slot_path[s] && !strcmp(slot_path[s], path)) {
+            fd_slot[fd] = (unsigned char)s;
+            logline(s, 'o', 0, 0, fd, 0);
+            return;
+        }
+}
+
+#include <stdarg.h>
+int open(const char *path, int flags, ...) {
+    init();
+    mode_t mode = 0;
+    if (flags & (O_CREAT | O_TMPFILE)) { va_list ap; va_start(ap, flags); mode = va_arg(ap, mode_t); va_end(ap); }
+    int fd = (int)syscall(SYS_openat, AT_FDCWD, path, flags, mode);
+    if (fd >= 0) note_open(path, fd);
+    return fd;
+}
+int open64(const char *path, int flags, ...) {
+    init();
+    mode_t mode = 0;
+    if (flags & (O_CREAT | O_TMPFILE)) { va_list ap; va_start(ap, flags); mode = va_arg(ap, mode_t); va_end(ap); }
+    int fd = (int)syscall(SYS_openat, AT_FDCWD, path, flags | O_LARGEFILE, mode);
+    if (fd >= 0) note_open(path, fd);
+    return fd;
+}
+int openat(int dirfd, const char *path, int flags, ...) {
+    init();
+    mode_t mode = 0;
+    if (flags & (O_CREAT | O_TMPFILE)) { va_list ap; va_start(ap, flags); mode = va_arg(ap, mode_t); va_end(ap); }
+    int fd = (int)syscall(SYS_openat, dirfd, path, flags, mode);
+    if (fd >= 0 && (dirfd == AT_FDCWD || (path && path[0] == '/'))) note_open(path, fd);
+    return fd;
+}
+int openat64(int dirfd, const char *path, int flags, ...) {
+    init();
+    mode_t mode = 0;
+    if (flags & (O_CREAT | O_TMPFILE)) { va_list ap; va_start(ap, flags); mode = va_arg(ap, mode_t); va_end(ap); }
+    int fd = (int)syscall(SYS_openat, dirfd, path, flags | O_LARGEFILE, mode);
+    if (fd >= 0 && (dirfd == AT_FDCWD || (path && path[0] == '/'))) note_open(path, fd);
+    return fd;
+}
+int close(int fd) {
+    if (fd >= 3 && fd < MAXFD) fd_slot[fd] = 0;
+    return (int)syscall(SYS_close, fd);
 }
 
 static ssize_t do_write(int fd, const void *buf, size_t count) {
